@@ -32,6 +32,12 @@ def gen_cases(tier, seed):
         cases.append({'scenario': 'mix', 'mode': 'async' if i % 3 == 1 else 'sync', 'capacity': r.choice([1, 1, 2, 3, 4]),
                       'callers': r.choice([2, 3, 4, 8, 16]), 'per_caller': r.choice([8, 20, 40]), 'workers': r.choice([1, 2, 3]),
                       'batch': r.choice([0, 0, 3]), 'fuzz': r.random() < 0.85, 'seed': r.randrange(1 << 30)})
+    # process workers: requests pass through the onboarding thread and an OS pipe; large payloads and slow workers keep
+    # accepted requests waiting in front of the pipe while their callers give up
+    for i in range(8 if tier == 'quick' else 120):
+        r = random.Random(rng.randrange(1 << 30))
+        cases.append({'scenario': 'mix', 'mode': 'async' if i % 4 == 3 else 'sync', 'capacity': r.choice([2, 3, 4]), 'callers': r.choice([3, 4, 5]), 'per_caller': 6,
+                      'workers': r.choice([1, 2]), 'batch': 0, 'fuzz': False, 'process': True, 'seed': r.randrange(1 << 30)})
     for i in range(3 if tier == 'quick' else 20):
         cases.append({'scenario': 'wait-bound', 'mode': 'async' if i % 2 else 'sync', 'capacity': 1, 'seed': rng.randrange(1 << 30)})
     return cases
@@ -57,13 +63,18 @@ class _ThreadingProxy:
         return getattr(self._real, k)
 
 
+BIG = {'on': False}
+
+
 def _mk_tok(client, s, rng):
     plan = []
     r = rng.random()
     if r < 0.15:
         plan.append(('A', 'fail', None))
     if rng.random() < 0.5:
-        plan.append(('A', 'sleep', rng.choice([0.0005, 0.002, 0.004])))
+        plan.append(('A', 'sleep', rng.choice([0.0005, 0.002, 0.004]) if not BIG['on'] else rng.choice([0.01, 0.1, 0.25])))
+    if BIG['on'] and rng.random() < 0.3:
+        plan.append(('_', 'pad', 'x' * rng.choice([300_000, 1_000_000, 3_000_000])))
     return ('tok', client, s, tuple(plan))
 
 
@@ -91,7 +102,13 @@ def run_case(case):
         return _wait_bound(case, viol, obs, SV, real_threading, dr)
 
     kw = {'batch_size': case['batch'], 'batch_wait_time': 0.002} if case['batch'] else {}
-    servlet = ThreadServlet(ST.TagWorker, tag='A', num_threads=case['workers'], **kw)
+    BIG['on'] = bool(case.get('process'))
+    if case.get('process'):
+        from mpservice.mpserver import ProcessServlet
+
+        servlet = ProcessServlet(ST.TagWorker, cpus=[None] * case['workers'], tag='A')
+    else:
+        servlet = ThreadServlet(ST.TagWorker, tag='A', num_threads=case['workers'], **kw)
     is_async = case['mode'] == 'async'
     server = (AsyncServer if is_async else Server)(servlet, capacity=cap)
     shadow = SH.install_ledger_shadow(server)
@@ -151,8 +168,8 @@ def run_case(case):
                 return
             for s in range(case['per_caller']):
                 tok = _mk_tok(c, s, r)
-                bp = r.random() < 0.5
-                dl = r.choice([5, 5, 0.003, 0.006, 0.02])
+                bp = r.random() < (0.5 if not BIG['on'] else 0.15)
+                dl = r.choice([5, 5, 0.003, 0.006, 0.02]) if not BIG['on'] else r.choice([20, 20, 0.02, 0.08, 0.2])
                 w0 = CountingCondition.waits.get(tident, 0)
                 sample()
                 try:
@@ -190,8 +207,8 @@ def run_case(case):
                 return
             for s in range(case['per_caller']):
                 tok = _mk_tok(c, s, r)
-                bp = r.random() < 0.5
-                dl = r.choice([5, 5, 0.003, 0.006, 0.02])
+                bp = r.random() < (0.5 if not BIG['on'] else 0.15)
+                dl = r.choice([5, 5, 0.003, 0.006, 0.02]) if not BIG['on'] else r.choice([20, 20, 0.02, 0.08, 0.2])
                 sample()
                 if r.random() < 0.1:
                     # a task cancelled while it waits for its result
@@ -216,7 +233,7 @@ def run_case(case):
 
     def idle_check(where):
         # every caller has returned; once the workers are idle the backlog must go to zero
-        t_end = time.monotonic() + 10
+        t_end = time.monotonic() + (10 if not BIG['on'] else 30)
         last_n, last_change = len(ST.CALL_LOG), time.monotonic()
         while time.monotonic() < t_end:
             if server.backlog == 0:
@@ -280,6 +297,7 @@ def run_case(case):
     if deaths:
         viol.append({'mech': 'backlog/helper-thread-died', 'msg': f'{deaths[0]}'[:600]})
     nontrivial = obs['reached_capacity'] == 1 and (obs['rejected_at_once'] + obs['rejected_after_wait'] + sum(CountingCondition.waits.values())) > 0
+    obs['process_lifetimes'] = 1 if case.get('process') else 0
     res = {'violations': viol[:6], 'obs': obs, 'nontrivial': nontrivial,
            'sig': hash((case['mode'], cap, case['callers'], case['workers'], case['seed'])) & 0xFFFFFFFFFFFF,
            'sample': {'mode': case['mode'], 'capacity': cap, 'callers': case['callers'], 'workers': case['workers'], 'batch': case['batch'],
@@ -288,7 +306,7 @@ def run_case(case):
                       'condition_waits': sum(CountingCondition.waits.values())}}
     if case['fuzz']:
         res['fuzz'] = fz.stats()
-    if viol:
+    if viol or case.get('process'):
         res['exit_after'] = True
     return res
 
